@@ -317,13 +317,42 @@ ENV_KINDS = {
     "tty":      lambda s, r: s.env.update(tty=True),
     "shm":      lambda s, r: s.env.update(shm=True),
     "leftovers": lambda s, r: s.env.update(leftovers=_leftovers(s, r)),
+    # the same directory as a node with -blocksxor writes it (the model is asked again: xor.dat is part of the data directory)
+    "xor":      lambda s, r: setattr(s, "xorkey", GC_xor_key(s, r)),
+    "magic":    lambda s, r: foreign_magic(s, r),
     "environ":  lambda s, r: s.env.update(environ=r.choice([{"TMPDIR": "/nonexistent-tmp"}, {"RUST_LOG": "trace", "RUST_BACKTRACE": "1"}, {"LANG": "C", "LC_ALL": "C", "TZ": "Pacific/Kiritimati"}, {"HOME": "/nonexistent-home", "COLUMNS": "20", "TERM": "dumb", "NO_COLOR": "1"}])),
 }
 DUMPERS = ("csvdump", "unspentcsvdump", "balances")
 
 
+def foreign_magic(s, r):
+    """the same directory with the four bytes in front of every stored block replaced (another supported coin's magic, zeros, noise):
+    the index names where a block's data starts, and nothing before the length field is ever read"""
+    import struct
+    pool = [m for c, m in K.MAGIC.items() if c != s.coin] + [0, 0xffffffff, r.randrange(1 << 32)]
+    one = r.choice(pool) if r.random() < 0.6 else None
+    files = {}
+    for name, f in s.files.items():
+        segs = []
+        for off, data in f["segs"]:
+            if (name, off) in s.block_at and len(data) >= 8:
+                data = struct.pack("<I", one if one is not None else r.choice(pool)) + data[4:]
+            segs.append((off, data))
+        files[name] = {"size": f["size"], "segs": segs}
+    s.files = files
+
+
+def GC_xor_key(s, r):
+    import struct
+    from . import gen_chain as GC
+    while True:
+        k = GC.xor_key(r, struct.pack("<I", K.MAGIC[s.coin]))
+        if any(k):
+            return k
+
+
 def env_kinds_for(s):
-    ks = ["v", "vv", "links", "slash", "environ", "tty"]
+    ks = ["v", "vv", "links", "slash", "environ", "tty"] + (["xor"] if s.xorkey is None else []) + (["magic"] if s.block_at else [])
     if s.callback in DUMPERS:
         ks += ["cwd", "shm", "leftovers"]
     else:
@@ -358,6 +387,10 @@ def env_sweep(ctx, family, scns, model, comparators, in_domain, share):
         v = copy.copy(s)
         v.env, v.meta = dict(s.env), dict(s.meta, circumstance=kind)
         ENV_KINDS[kind](v, r)
+        if kind == "xor" and r.random() < 0.5:
+            v.env["links"] = "alternate"
+        if kind in ("xor", "magic"):
+            m = K.run_model([v])[0]
         vs.append((v, m, kind))
     if not vs:
         return
@@ -382,8 +415,6 @@ def env_sweep(ctx, family, scns, model, comparators, in_domain, share):
 
 def check(ctx, family, scns, comparators, shared_dirs=None, nontrivial=lambda s, m: True, in_domain=lambda s, m: True, env_share=None):
     impl, model = run_pairs(scns, shared_dirs)
-    if family != "replay" and not family.startswith("literal:"):
-        env_sweep(ctx, family, scns, model, comparators, in_domain, env_share if env_share is not None else getattr(ctx, "env_share", 0.35))
     for s, r, m in zip(scns, impl, model):
         diffs = []
         for c in list(comparators) + ([cmp_leftovers] if s.env.get("leftovers") else []):
@@ -404,6 +435,8 @@ def check(ctx, family, scns, comparators, shared_dirs=None, nontrivial=lambda s,
     if not ctx.samples and scns:
         s, r, m = scns[0], impl[0], model[0]
         ctx.add_sample({"family": family, "scenario": describe(s), "impl_exit": r.exit, "model_exit": m["exit"], "delivered": m["delivered"][:20], "files": sorted(m["files"])})
+    if family != "replay" and not family.startswith("literal:"):
+        env_sweep(ctx, family, scns, model, comparators, in_domain, env_share if env_share is not None else getattr(ctx, "env_share", 0.35))
     return impl, model
 
 
@@ -453,6 +486,8 @@ def literal_family(ctx, callbacks, coins=("bitcoin", "litecoin"), verify=False):
                 s = K.Scenario(coin=coin, callback=cb)
                 GC.simple_layout(s, blocks, first_height=first)
                 s.start = first
-                s.verify = verify and first > 0
+                if verify and first > 0:
+                    # a verified run looks its first block's predecessor up in the index: start one above the first indexed height
+                    s.verify, s.start = True, first + 1
                 s.meta = {"literal": L, "variant": variant}
                 check(ctx, "literal:%d" % L, [s], comparators_for(cb), nontrivial=lambda s, m: True)
